@@ -3,8 +3,10 @@ package main
 import (
 	"bytes"
 	"encoding/json"
+	"errors"
 	"fmt"
 	"html/template"
+	"math"
 	"reflect"
 	"sort"
 	"strconv"
@@ -43,7 +45,20 @@ type c08Iterable struct {
 	Bind  func() map[string]interface{}
 	Elems []c08KV
 	KKind string // "int" | "str": what the generator knows about keys
-	VKind string // "int" | "str" | "" (values the generator does not compare)
+	VKind string // "int" | "str" | "opq" (only nil or not) | "" (values the generator does not compare)
+	// Nilable: the value variable may be bound to an untyped nil (a nil element / nil map value). A nil-valued
+	// variable is an unknown identifier when it is mentioned bare, so the generator mentions it in conditions
+	// only (truthiness, == / != nil or a literal) and emits it under such a condition.
+	Nilable bool
+	Special string // "" | what the marked positions of a masked kind hold (part of the family id)
+}
+
+// Elems0V: the value of element i (nil when there is none).
+func (it *c08Iterable) Elems0V(i int) interface{} {
+	if i < 0 || i >= len(it.Elems) {
+		return nil
+	}
+	return it.Elems[i].V
 }
 
 type c08Str struct{ S string }
@@ -141,7 +156,165 @@ func c08MakeIterable(name string) (*c08Iterable, error) {
 		}
 		return xs
 	}
+	// masked kinds, "<kind>:<n>:<mask>": position i is SPECIAL when bit i of the mask is set (an untyped nil
+	// element / nil map value, a NaN map key, a zero value); the other positions hold 10+i (or a letter)
+	marked := func(i int) bool { return a&(1<<uint(i)) != 0 }
+	special := func(what string) {
+		if a&(1<<uint(n)-1) != 0 {
+			it.Special = what
+		}
+	}
+	nilInts := func() []interface{} { // 10+i, nil at the marked positions
+		xs := make([]interface{}, n)
+		for i := range xs {
+			if !marked(i) {
+				xs[i] = 10 + i
+			}
+			vals[i] = xs[i]
+		}
+		it.VKind, it.Nilable = "int", true
+		special("nil-elems")
+		return xs
+	}
 	switch kind {
+	case "anyn": // []interface{} with untyped nil elements: elements like any other
+		it.Bind = one(nilInts())
+	case "panyn":
+		xs := nilInts()
+		it.Bind = one(&xs)
+	case "arrn", "parrn": // [n]interface{} with nil elements
+		xs := nilInts()
+		av := reflect.New(reflect.ArrayOf(n, reflect.TypeOf((*interface{})(nil)).Elem())).Elem()
+		for i := range xs {
+			if xs[i] != nil {
+				av.Index(i).Set(reflect.ValueOf(xs[i]))
+			}
+		}
+		if kind == "arrn" {
+			it.Bind = one(av.Interface())
+		} else {
+			it.Bind = one(av.Addr().Interface())
+		}
+	case "errs": // a slice of a non-empty interface type, nil at the marked positions
+		xs := make([]error, n)
+		for i := range xs {
+			if !marked(i) {
+				xs[i] = errors.New("E" + c08Letters[i])
+				vals[i] = xs[i]
+			}
+		}
+		it.VKind, it.Nilable = "opq", true
+		special("nil-elems")
+		it.Bind = one(xs)
+	case "litn": // array literal in the template with nil elements
+		ss := []string{}
+		for _, x := range nilInts() {
+			if x == nil {
+				ss = append(ss, "nil")
+			} else {
+				ss = append(ss, strconv.Itoa(x.(int)))
+			}
+		}
+		it.Expr = "[" + strings.Join(ss, ", ") + "]"
+		it.Bind = func() map[string]interface{} { return map[string]interface{}{} }
+	case "zints": // zero values are elements like any other
+		it.VKind = "int"
+		xs := ints()
+		for i := range xs {
+			if marked(i) {
+				xs[i], vals[i] = 0, 0
+			}
+		}
+		special("zero-elems")
+		it.Bind = one(xs)
+	case "zstrs":
+		it.VKind = "str"
+		xs := strs()
+		for i := range xs {
+			if marked(i) {
+				xs[i], vals[i] = "", ""
+			}
+		}
+		special("zero-elems")
+		it.Bind = one(xs)
+	case "falsies": // mixed values, the marked ones zero values of their types (0, "", false, 0.0)
+		xs := make([]interface{}, n)
+		for i := range xs {
+			xs[i] = 10 + i
+			if marked(i) {
+				xs[i] = []interface{}{0, "", false, 0.0}[i%4]
+			}
+			vals[i] = xs[i]
+		}
+		special("zero-elems")
+		it.Bind = one(xs)
+	case "ziter", "fziter": // an Iterator yielding zero values mid-stream: not exhausted (only untyped nil is)
+		xs := make([]interface{}, n)
+		for i := range xs {
+			xs[i] = 10 + i
+			if marked(i) {
+				xs[i] = 0
+				if kind == "fziter" {
+					xs[i] = []interface{}{false, "", 0.0}[i%3]
+				}
+			}
+			vals[i] = xs[i]
+		}
+		if kind == "ziter" {
+			it.VKind = "int"
+		}
+		special("zero-elems")
+		it.Bind = func() map[string]interface{} { return map[string]interface{}{"xs": &c08Iter{xs: xs}} }
+	case "msn", "hashn": // map / hash literal whose marked entries have a nil value: still entries
+		it.Class, it.KKind, it.VKind, it.Nilable = "map", "str", "int", true
+		special("nil-values")
+		m := map[string]interface{}{}
+		ss := []string{}
+		for i := 0; i < n; i++ {
+			var v interface{}
+			src := "nil"
+			if !marked(i) {
+				v, src = 10+i, strconv.Itoa(10+i)
+			}
+			m[c08Letters[i]] = v
+			ss = append(ss, c08Letters[i]+": "+src)
+			it.Elems = append(it.Elems, c08KV{c08Letters[i], v})
+		}
+		if kind == "msn" {
+			it.Bind = one(m)
+		} else {
+			it.Expr = "{" + strings.Join(ss, ", ") + "}"
+			it.Bind = func() map[string]interface{} { return map[string]interface{}{} }
+		}
+		return it, nil
+	case "mnan", "pmnan", "many": // float / interface keys; the marked entries have a NaN key (each one an entry of its own,
+		// none of them can be looked up again)
+		it.Class, it.KKind, it.VKind = "map", "", "int"
+		special("nan-keys")
+		mf := map[float64]int{}
+		ma := map[interface{}]interface{}{}
+		for i := 0; i < n; i++ {
+			var k interface{} = float64(i) + 0.5
+			if marked(i) {
+				k = math.NaN()
+			} else if kind == "many" && i%3 != 2 {
+				k = []interface{}{i, c08Letters[i]}[i%3]
+			}
+			if f, ok := k.(float64); ok {
+				mf[f] = 10 + i
+			}
+			ma[k] = 10 + i
+			it.Elems = append(it.Elems, c08KV{k, 10 + i})
+		}
+		switch kind {
+		case "mnan":
+			it.Bind = one(mf)
+		case "pmnan":
+			it.Bind = one(&mf)
+		default:
+			it.Bind = one(ma)
+		}
+		return it, nil
 	case "ints":
 		it.VKind = "int"
 		it.Bind = one(ints())
@@ -481,6 +654,9 @@ func c08Short(s string) string {
 	return s
 }
 
+// c08MapRenders: how many times the loop over a map is rendered (each render visits it in an order of its own).
+var c08MapRenders = 2
+
 // c08Verdict is the outcome of one case: Kind == "" means the property held.
 type c08Verdict struct {
 	Kind, Type, What string // Type: mismatch type (first component of the family id) or the panic site
@@ -488,8 +664,13 @@ type c08Verdict struct {
 }
 
 func c08Class(it *c08Iterable) string {
+	if it.Special != "" {
+		cp := *it
+		cp.Special = ""
+		return c08Class(&cp) + "+" + it.Special
+	}
 	switch it.Group {
-	case "range", "until", "between", "iter", "iteri", "fiter", "viter", "piter", "anyiter":
+	case "range", "until", "between", "iter", "iteri", "fiter", "viter", "piter", "anyiter", "ziter", "fziter":
 		return "iterator"
 	}
 	if it.Class == "map" {
@@ -613,6 +794,24 @@ func c08Eval(cs *c08Case, it *c08Iterable) (v c08Verdict) {
 	if typ, what := check(o.Out); typ != "" {
 		return fail("wrong-output", typ, what)
 	}
+	// Go visits a map in another order each time, and what a render does may depend on the order: a map with
+	// two entries or more is rendered again (a replay, being one case, renders it many times)
+	if it.Class == "map" && len(it.Elems) > 1 {
+		for n := 1; n < c08MapRenders; n++ {
+			ro := safeCall(3*time.Second, func() (string, error) { return plush.Render(cs.Tmpl, c08Ctx(it, nil)) })
+			switch ro.Kind() {
+			case "PANIC":
+				return fail("panic", ro.Site, "rendering the loop panicked: "+ro.Panic)
+			case "HANG":
+				return fail("hang", "for-loop", "rendering the loop did not return")
+			case "ERR":
+				return fail("wrong-error", "loop-errors", "every entry's body renders without error, the loop fails: "+ro.Err.Error())
+			}
+			if typ, what := check(ro.Out); typ != "" {
+				return fail("wrong-output", typ, what)
+			}
+		}
+	}
 	if !cs.Again {
 		return
 	}
@@ -704,12 +903,13 @@ func c08Run(rep *Report, cs *c08Case) {
 func init() {
 	oracles["C08"] = func(cfg Config) []*Report {
 		rep := NewReport("C08", "C08", cfg)
-		rep.Rule = "loop-unrolling equivalence, both sides rendered by plush: a for loop over a named iterable (slices of 8 element types, arrays, pointers to slice/array/map, array and hash literals, maps, range/until/between, 6 custom Iterator shapes, slices/maps/iterators of pointers with typed nil pointers among the elements, 6 nil forms, 10 non-iterables; lengths 0..6) with a generated body (text, emit key/value, let, fn literal, if/else-if/else, break/continue/return bare or in an if at every statement position, inner loops before/after/around control statements, depth<=3; an inner loop's iterable is a constant or is built when the loop is entered from the enclosing loop's variables: array literal of variables/arithmetic, in place or let-bound first, one-entry hash literal, range(x+c, x+d); an inner loop may live in a fn(p) defined in the body and called 1-2 times with different arguments, so the same loop node is entered repeatedly in one render), printed one-statement-per-tag, with merged code tags, or wholly inside one tag, with text/tags after the closing brace; versus the generator's per-element straight-line unrolling (all loops unrolled, control statements resolved from the known element values), one render per element, concatenated up to the first break; maps: any entry order. One case in five also parses the template once and executes it twice, first over another iterable of the same kind: the second execution must match the same unrolling. Part A is an exhaustive grid (every iterable kind x length x control statement at every position x firing index x break/continue x 3 print styles), part B random bodies. All cases reach evalForExpression; ~85% have >=1 element; non-trivial = iterable with a body that runs; distinct by case text"
+		rep.Rule = "loop-unrolling equivalence, both sides rendered by plush: a for loop over a named iterable (slices of 8 element types, arrays, pointers to slice/array/map, array and hash literals, maps, range/until/between, 6 custom Iterator shapes, slices/maps/iterators of pointers with typed nil pointers among the elements, masked kinds \"<kind>:<n>:<mask>\" whose marked positions hold an untyped nil element ([]interface{}, [n]interface{}, []error, pointers to them, array literal with nil) / a nil map value (map, hash literal) / a NaN map key (map[float64], map[interface{}] with mixed key types; every NaN key is an entry of its own that cannot be looked up again) / a zero value (0, \"\", false, 0.0 in slices and yielded by Iterators), 6 nil forms, 10 non-iterables; lengths 0..6) with a generated body (text, emit key/value, let, fn literal, if/else-if/else, break/continue/return bare or in an if at every statement position, inner loops before/after/around control statements, depth<=3; an inner loop's iterable is a constant or is built when the loop is entered from the enclosing loop's variables: array literal of variables/arithmetic, in place or let-bound first, one-entry hash literal, range(x+c, x+d); inner literals may hold nil elements / a nil hash value; a variable that may be nil is mentioned in conditions only (bare = truthiness, == / != nil or a literal) and emitted under `if (x)` / `if (x != nil)`; an inner loop may live in a fn(p) defined in the body and called 1-2 times with different arguments, so the same loop node is entered repeatedly in one render), printed one-statement-per-tag, with merged code tags, or wholly inside one tag, with text/tags after the closing brace; versus the generator's per-element straight-line unrolling (all loops unrolled, control statements resolved from the known element values), one render per element, concatenated up to the first break; maps: any entry order, and a loop over a map of 2+ entries is rendered twice (16 times in a replay): each render visits the map in an order of its own. One case in five also parses the template once and executes it twice, first over another iterable of the same kind: the second execution must match the same unrolling. Part A is an exhaustive grid (every iterable kind x length x control statement at every position x firing index x break/continue x 3 print styles), part B random bodies. All cases reach evalForExpression; ~85% have >=1 element; non-trivial = iterable with a body that runs; distinct by case text"
 		rep.Notes = append(rep.Notes,
 			"open case, not flagged: a nil *[]T may render nothing or be an error (it is both 'nil' and 'pointer to an iterable'); today it is the error 'could not iterate over *[]int'",
 			"return inside a loop body is checked as DESIGN.md loopSpec states it (.ret out => out ++ rest): its value is emitted and only the iteration ends; the property text itself only names break/continue",
 			"a context variable holding untyped nil is an unknown identifier before the loop is reached, so nil iterables are produced by the nil literal, a helper returning nil, a missing map key, and typed nil slice/map",
-			"typed nil pointers are elements (of a slice, a map, or yielded by an Iterator's Next): only an untyped nil from Next means exhausted. Untyped nil ELEMENTS of []interface{} are not generated: a context variable holding untyped nil cannot be bound for the element-by-element side",
+			"typed nil pointers are elements (of a slice, a map, or yielded by an Iterator's Next): only an untyped nil from Next means exhausted. Untyped nil ELEMENTS (slice/array/literal) and nil map VALUES are elements/entries too: the loop binds the value variable to nil, which is what the element-by-element side does through the context; a variable bound to nil is an unknown identifier when mentioned bare (on both sides alike), so bodies ask for it in conditions only",
+			"a failure on a map whose order matters (e.g. NaN keys) may need several renders to show: the generating run renders twice, a replay 16 times",
 			"an inner hash-literal iterable has at most one entry (the generator must know the order of the inner output); loops inside a fn mention only the fn's parameter and their own variables (no reliance on how a fn body sees its caller's scope)",
 			"blocks of `if` that emit are written <%= if … %> (a silent <% if %> drops its block's output; that is C02/C07 territory); inner loops in silent position have bodies without output")
 		if cfg.Arg != "" {
@@ -718,6 +918,7 @@ func init() {
 				rep.Notes = append(rep.Notes, "cannot parse --arg as a C08 case: "+err.Error())
 				return []*Report{rep}
 			}
+			c08MapRenders = 16
 			c08Run(rep, &cs)
 			return []*Report{rep}
 		}
